@@ -137,6 +137,14 @@ def verify(contract, scratch, tucache, bounded=0, bcase=None):
                 ex.elem_inv[(f.region, f.leaf)] = (lambda fn: (lambda s_, k_, v_: fn(Ctx(ex, s_, None, args), k_, v_)))(f.fn)
             else:
                 st.assume(f)
+        # instances of the element-wise preconditions at the unit's ghost indices, on the entry arrays (sound: the
+        # precondition holds for every index; a postcondition about ghost index g usually needs exactly this instance)
+        for (region_, leaf_), inv_ in list(ex.elem_inv.items()):
+            lct_ = st.leafct.get((region_, leaf_)) or parse_type_str('float')
+            arr_ = st.array(region_, leaf_, lct_)
+            for gname_, gterm_ in ex.ghosts.items():
+                if gterm_.sort() == z3.IntSort():
+                    st.assume(inv_(st, gterm_, z3.Select(arr_, gterm_)))
         ex.requires_pc = list(st.pc)
         entry = st.copy()
         ex.entry = entry
